@@ -126,6 +126,10 @@ extern long mpt_buffer_set(MPT_STRUCT(buffer) *buf, const MPT_STRUCT(type_traits
 				/* invalidate remaining data as result of fatal error */
 				buf->_used = pos;
 				if (fini) {
+					/* assigned range is already terminated */
+					if (pos < end) {
+						pos = end;
+					}
 					while (pos < used) {
 						fini(ptr + pos);
 						pos += elem_size;
